@@ -1,2 +1,11 @@
-// Package c17 holds the workloads and monitors of property C17.
+// Package c17 holds the workloads and monitors of property C17 (transactions are authentic,
+// applied at most once, and charged exactly).
+//
+//   - C17.sign  (sign.go):  types.Sender / crypto.Ecrecover against an independent math/big
+//     secp256k1 + RLP + keccak reference (verif/model/c17_secp.go): honest signatures, every
+//     single-field mutation, foreign network ids, high-s twins, exhaustive V windows, malformed
+//     r/s/v; also run under -asan in the thorough tier (recovery goes through cgo libsecp256k1).
+//   - C17.apply (apply.go): StateProcessor.ApplyTransaction on a real BlockChain with the staking
+//     module registered, judged by a reference accounting model plus a frame condition over the
+//     complete state digest (verif/mon) and "refused up front => nothing changed".
 package c17
